@@ -24,7 +24,7 @@ def run_controls(verif, repo, controls, build):
         mgen = os.path.join(build, "controls", "%s_ctl_%s.rs" % (c["unit"], re.sub(r"\W+", "_", name)))
         with open(mgen, "w") as f:
             f.write(new)
-        cmd, o, err, rc, wall = runner.run_verus(mgen, rlimit=c.get("rlimit", 30))
+        cmd, o, err, rc, wall = runner.run_verus(mgen, rlimit=c.get("rlimit", 30), extra=asm.verus_args)
         diags = [d for d in runner.parse_diags(err) if d.get("level") == "error" and runner.classify(d["message"])]
         msgs = [d["message"] + " @ " + " | ".join(runner._span_text(s)[:80] for s in d.get("spans", []) if s.get("is_primary")) for d in diags]
         want = c.get("expect")
